@@ -74,9 +74,24 @@ def parse(text):
     return res
 
 
+class ByCanonicalPath(dict):
+    """a dict keyed by paths as ninja compares them: `build/dl/./x/f` and `build/dl/x/f` are one file"""
+    def __getitem__(self, k):
+        return dict.__getitem__(self, canon(k))
+
+    def __contains__(self, k):
+        return dict.__contains__(self, canon(k))
+
+    def get(self, k, default=None):
+        return dict.get(self, canon(k), default)
+
+    def setdefault(self, k, default=None):
+        return dict.setdefault(self, canon(k), default)
+
+
 def producers(pn):
     """output path -> list of build statements producing it"""
-    out = {}
+    out = ByCanonicalPath()
     for b in pn["builds"]:
         for o in b["outs"]:
             out.setdefault(o, []).append(b)
@@ -89,7 +104,7 @@ def ambiguous(pn, target, prod=None):
     prod = prod if prod is not None else producers(pn)
     seen, todo = set(), [target]
     while todo:
-        t = todo.pop()
+        t = canon(todo.pop())
         if t in seen:
             continue
         seen.add(t)
@@ -107,7 +122,7 @@ def closure(pn, target):
     rules = {r["name"]: r for r in pn["rules"]}
     seen, todo, sts = set(), [target], []
     while todo:
-        t = todo.pop()
+        t = canon(todo.pop())
         if t in seen:
             continue
         seen.add(t)
